@@ -190,10 +190,16 @@ where
     if matches!(compression_method, Some(CompressionMethod::Bgzf)) {
         let mut decoder = MultiGzDecoder::new(src);
         let mut buf = [0; BAM_MAGIC_NUMBER.len()];
-        decoder.read_exact(&mut buf)?;
 
-        if buf == BAM_MAGIC_NUMBER {
-            return Ok(Format::Bam);
+        // Fewer bytes than the magic number, e.g., an empty SAM, is not BAM.
+        match decoder.read_exact(&mut buf) {
+            Ok(()) => {
+                if buf == BAM_MAGIC_NUMBER {
+                    return Ok(Format::Bam);
+                }
+            }
+            Err(e) if e.kind() == io::ErrorKind::UnexpectedEof => {}
+            Err(e) => return Err(e),
         }
     } else if let Some(buf) = src.get(..BAM_MAGIC_NUMBER.len()) {
         if buf == BAM_MAGIC_NUMBER {
